@@ -16,7 +16,10 @@ RULE = ("cases: every shape of rank 0..4 with extents 1..5 (rank 4: extents <= 4
         "with length n, n+1, n-1, 0, new, read, plus 17 shapes with extents up to usize::MAX whose product does not fit usize (must be rejected: "
         "panic:overflow in the checked build) or fits but is far from the length; == over all pairs of equal-rank shapes with equal element count (same data), same shape with one "
         "element changed, different counts; Writable bytes and Writer -> bytes -> chunked Reader -> Tensor::read round trip for i64 (incl. MIN/MAX) "
-        "and String elements; {:?} output of i64 tensors; histories `h D ; op ; …` over four Tensor<i64, D> variables (ranks 0..4): clone(), and clone_from for EVERY ordered pair of small shapes "
+        "and String elements; read plans `rs ty chunk lead ; t dims data seps ; k tok sep ; …` (500, thorough 6000): two to five values - tensors of ranks 0..4 with different shapes and plain tokens - read "
+        "from ONE chunked Reader over one input in which every element is followed by its own whitespace (blank, newline, tab, CR-LF, runs of them; nothing after the last), so a tensor ends "
+        "inside a line, at a line end or before blank lines and the next value starts right there: every value read must be the value written, and is_eof afterwards; "
+        "{:?} output of i64 tensors; histories `h D ; op ; …` over four Tensor<i64, D> variables (ranks 0..4): clone(), and clone_from for EVERY ordered pair of small shapes "
         "(same shape / another shape with the same element count / another count; rank 1 extents <= 6, rank 2 <= 4, rank 3 <= 3, rank 4 <= 2 in the quick tier), each followed by dims(), ==, iter, "
         "t[idx] / get_index / t[idx]=v at the last and a random valid index and at an index out of range in each dimension - for the source's shape and for the overwritten "
         "variable's old shape -, dim(i) for i in and out of range, Writable bytes, a write to the copy, the source afterwards, and clone_from back; plus 2500 (thorough 60000) random histories mixing all ops "
@@ -35,6 +38,9 @@ ASSUMPTIONS = [
     "usize arithmetic is modelled as the checked build executes it (overflow = panic): get_index through getIndexU, the constructors' product through prodU; "
     "an unchecked build wraps instead (from_vec([2^32, 2^32], vec![]) is accepted there) - outside the property's stated quantifier, see docs/notes/C19.md",
     "element rendering/parsing (i64, String) is rlib_io's (C08/C09); the model takes the rendering of an element as a parameter",
+    "read plans (rs cases): the model side tokenises the whole input (splitWs) and runs the model's read / tokRd item by item over the one token list - "
+    "Tensor::read consumes exactly product-many tokens and nothing else; the spec side is the plan itself (the values written, eof=true); no new model definitions; "
+    "Reader::read_line after a tensor is not exercised (the token-list reader has no lines; lines are C08's)",
     "Clone is modelled with value semantics (clone = same shape and elements; clone_from = the trait default `*self = source.clone()`); histories are run on Tensor<i64, D> "
     "with four variables; the spec side of a history (stepSpec) is proved equal to the model side for every history (hist_spec)",
     "element-generic histories (g cases): the model is polymorphic in the element type and in the element's == (no lawfulness assumed); the driver instantiates it at a sum type whose == is "
@@ -71,6 +77,8 @@ def nontrivial(case, rec):
     op = toks[0]
     if op == "h":
         return " cf " in case or " cl " in case
+    if op == "rs":
+        return case.count(";") >= 2      # at least two values read from the one reader
     if op == "g":
         return any(k in case for k in (" eq ", " ne ", " cf ", " itx ", " get "))
     try:
